@@ -1,6 +1,7 @@
-"""Per-property configuration of the checks: which Lean modules carry the
-property theorems and fact obligations, which correspondence streams and
-implementation oracles run, and how many cases per tier."""
+"""Per-property configuration of the checks.  One file per property in
+tools/propcfg/Cxx.py defining CONFIG (Lean modules, streams, oracles, case
+counts) and MANIFEST (level text).  This module loads them."""
+import glob, importlib.util, os
 
 TRUSTED_COMMON = [
     "Lean 4.33.0 kernel (axioms allowed: propext, Classical.choice, Quot.sound; audited per theorem on every run)",
@@ -10,27 +11,16 @@ TRUSTED_COMMON = [
     "modelled, not verified: uio.Lexer, net.IP.To4, copy/append, encoding/binary.BigEndian",
 ]
 
-# stream/oracle entries: (name, quick_n, thorough_n)
-PROPS = {
-    "C01": dict(
-        props=["DhcpProofs.Props.C01"],
-        facts=["DhcpProofs.Facts.V4Codec"],
-        streams=[("v4enc", 6000, 60000), ("v4dec", 4000, 40000)],
-        oracles=[("c01", 6000, 80000)],
-        full_statement_proved=True,
-        missing="",
-        rule="v4enc: generated packets (3/4 inside the encodable domain, option value lengths concentrated on the 0/255/256/510/511/765 boundaries) encoded by ToBytes three times and by the Lean model; v4dec: encoder output, hand-laid, truncated, perturbed and random wire bytes decoded by FromBytes and by the model; oracle c01: FromBytes(ToBytes(p)) == p on the domain. non-trivial = carries at least one option (enc) / longer than the fixed header (dec); distinct = distinct operation lines",
-        assumptions=["Go nil and empty option values are identified in the model"],
-    ),
-}
-
 NOTE_COMMON = ("Trusted: Lean kernel; the extractor; the correspondence harness (testing) as the evidence that the "
                "hand-written model matches the code; uio.Lexer/net/binary modelled not verified. ")
 
-MANIFEST_TEXT = {
-    "C01": dict(
-        text="Machine-checked theorem (Lean 4, no axioms beyond propext/Quot.sound): for every packet of the encodable domain, with any number of options and values of any length, the model's decoder applied to the model's encoder output returns the packet (addresses in 4-byte form). The model is tied to the code on every run by regenerated constants (chunk size 255, 300-byte minimum, cookie, name capacities, hlen clamp) re-checked by Lean, and by differential runs of ToBytes/FromBytes against the compiled model on generated, malformed and boundary inputs; an implementation-level round-trip oracle searches for a concrete failing input.",
-        design_ref="DESIGN.md section 6 C01",
-        note=NOTE_COMMON + "Go nil/empty option values identified.",
-        technique="Lean 4 proof by strong induction over RFC 3396 chunking + model/code correspondence check"),
-}
+PROPS, MANIFEST_TEXT = {}, {}
+_here = os.path.join(os.path.dirname(os.path.abspath(__file__)), "propcfg")
+for _p in sorted(glob.glob(os.path.join(_here, "C*.py"))):
+    _name = os.path.basename(_p)[:-3]
+    _spec = importlib.util.spec_from_file_location("propcfg_" + _name, _p)
+    _m = importlib.util.module_from_spec(_spec)
+    _m.NOTE_COMMON = NOTE_COMMON
+    _spec.loader.exec_module(_m)
+    PROPS[_name] = _m.CONFIG
+    MANIFEST_TEXT[_name] = _m.MANIFEST
